@@ -9,7 +9,7 @@ import time
 VERIF = os.path.dirname(os.path.dirname(os.path.abspath(__file__)))
 TARGET = os.path.join(VERIF, "target")
 WORK = os.path.join(VERIF, "work")
-EVID = os.path.join(VERIF, "evidence")
+EVID = os.environ.get("VERIF_EVIDENCE_DIR") or os.path.join(VERIF, "evidence")  # the override is for side-by-side thorough sweeps only
 REPLAY = os.path.join(VERIF, "replay")
 SYMEX_BIN = os.path.join(TARGET, "symex", "release", "symex")
 
@@ -91,13 +91,16 @@ PROPS = {
     "C14": [S("C14"), K("c14")],
     "C15": [S("C15"), K("c15")],
     "C16": [S("C16"), K("c16")],
-    "C17": [K("c17")],
+    "C17": [S("C17"), K("c17")],
     "C18": [S("C18"), K("c18")],
     "C19": [M("C19"), S("C19"), K("c19")],
 }
 # K steps can be switched off for experiments (VERIF_SKIP_K=1); registered commands never set it
 if os.environ.get("VERIF_SKIP_K") == "1":
     PROPS = {k: [s for s in v if s[0] != "K"] for k, v in PROPS.items()}
+# ... and everything but K (VERIF_ONLY_K=1), to run the two lanes of a thorough sweep side by side
+if os.environ.get("VERIF_ONLY_K") == "1":
+    PROPS = {k: [s for s in v if s[0] == "K"] for k, v in PROPS.items()}
 
 
 def known_findings():
